@@ -1386,7 +1386,7 @@ class TermCanvas(Canvas):
         if mode == 0:
             self.erase(self.term_cursor, (self.width - 1, self.height - 1))
         if mode == 1:
-            self.erase((0, 0), (self.term_cursor[0] - 1, self.term_cursor[1]))
+            self.erase((0, 0), self.term_cursor)
         elif mode == 2:
             self.clear(cursor=self.term_cursor)
 
